@@ -183,15 +183,20 @@ func (m *metaFile) StoreSnapshot(snap *raftpb.Snapshot) error {
 	if !IsValidSnapshot(*snap) {
 		return nil
 	}
-	m.SetUint(SnapshotIndex, snap.Metadata.Index)
-	m.SetUint(SnapshotTerm, snap.Metadata.Term)
-
 	buf, err := snap.Marshal()
 	if err != nil {
 		return errors.Wrapf(err, "cannot marshal snapshot")
 	}
 
-	if err = m.meta.WriteSlice(0, 0, snapshotOffset, buf, true, false); err != nil {
+	// index, term, size and data of the snapshot are adjacent in the file and go out in one
+	// write: a process that dies between separate writes would leave the index of the new
+	// snapshot next to the data of the old one, and Init refuses such a file
+	out := make([]byte, 0, snapshotOffset-snapshotIndex+unit32Size+len(buf))
+	out = binary.BigEndian.AppendUint64(out, snap.Metadata.Index)
+	out = binary.BigEndian.AppendUint64(out, snap.Metadata.Term)
+	out = binary.BigEndian.AppendUint32(out, uint32(len(buf)))
+	out = append(out, buf...)
+	if _, err = m.meta.WriteAt(0, snapshotIndex, out, true); err != nil {
 		return err
 	}
 	return nil
